@@ -142,8 +142,8 @@ def run(tier, seed):
     rng = rng_for(seed, PID, "matrix")
     if tier == "quick":
         rng.shuffle(pairs)
-        pairs = pairs[:1600]
-        n = 5000
+        pairs = pairs[:3200]
+        n = 16000
     else:
         n = 250000
     payloads = []
